@@ -126,7 +126,11 @@ class CascadeChecker:
                 self.logger.debug('Cascade fetching public key ...')
                 # A chain of key locators that leads back to a certificate which is itself waiting for this chain
                 # never reaches the trust anchor: refuse it instead of fetching round and round
-                waiting, wanted = Name.to_bytes(name), Name.to_bytes(cert_name)
+                # (a certificate named by its full name is the same certificate as under its plain name)
+                plain_name = cert_name
+                if plain_name and Component.get_type(plain_name[-1]) == Component.TYPE_IMPLICIT_SHA256:
+                    plain_name = plain_name[:-1]
+                waiting, wanted = Name.to_bytes(name), Name.to_bytes(plain_name)
                 cur = wanted
                 while cur is not None and cur != waiting:
                     cur = self._fetching.get(cur)
